@@ -394,7 +394,13 @@ class RSocketBase(RSocket, RSocketInternal):
             next_fragment = next_frame_source.get_next_fragment(transport.requires_length_header())
 
             if next_fragment.flags_follows:
-                self._send_queue.put_nowait(self._send_queue.get_nowait())  # cycle to next frame source in queue
+                stream_id = next_frame_source.stream_id
+
+                if not self._send_queue.any_other(next_frame_source,
+                                                  lambda queued: queued.stream_id == stream_id):
+                    # cycle to next frame source in queue. frames of the same stream must not overtake
+                    # the remaining fragments, so the source stays at the head while any are queued.
+                    self._send_queue.put_nowait(self._send_queue.get_nowait())
             else:
                 next_frame_source.get_next_fragment(
                     transport.requires_length_header())  # workaround to clean-up generator.
